@@ -399,6 +399,123 @@ def number_forms_shard(args):
     return agg
 
 
+# ------------------------------------------------------------------------------------------------
+# giant tokens: one token whose span length sits around the limits of the span encoding (2^25, 2^26 bytes).  The
+# input is described to the harness in run-length form (no 64 MiB through the pipe); the expected token list is
+# known by construction.
+
+def giant_cases():
+    """-> (name, parts, expected tokens [(kind, start, end, payload-or-None)]) ; parts: bytes | (count, bytes)."""
+    out = []
+    for T in (2 ** 25 - 1, 2 ** 25, 2 ** 25 + 1, 2 ** 26 - 1, 2 ** 26, 2 ** 26 + 1, 3 * 2 ** 24 + 5):
+        def mk(name, parts, toks):
+            out.append(("%s:%d" % (name, T), parts, toks))
+        # leading '1', then the giant token of length T starting at offset 1, then ' 2'
+        mk("whitespace", [b"1", (T, b" "), b"2"], [("N", 0, 1, ("1", 0)), ("W", 1, 1 + T, None), ("N", 1 + T, 2 + T, ("2", 0))])
+        mk("newlines", [b"1", (T, b"\n"), b"2"], [("N", 0, 1, ("1", 0)), ("W", 1, 1 + T, None), ("N", 1 + T, 2 + T, ("2", 0))])
+        mk("block_comment", [b"1/*", (T - 4, b"x"), b"*/2"], [("N", 0, 1, ("1", 0)), ("C", 1, 1 + T, None), ("N", 1 + T, 2 + T, ("2", 0))])
+        # (a single-line comment token includes its line terminator, as in the reference lexer)
+        mk("line_comment", [b"1//", (T - 3, b"y"), b"\n2"], [("N", 0, 1, ("1", 0)), ("C", 1, 1 + T, None), ("N", 1 + T, 2 + T, ("2", 0))])
+        mk("hash_comment", [b"1#", (T - 2, b"z"), b"\n2"], [("N", 0, 1, ("1", 0)), ("C", 1, 1 + T, None), ("N", 1 + T, 2 + T, ("2", 0))])
+        mk("dq_string", [b"1 \"", (T - 2, b"a"), b"\" 2"], [("N", 0, 1, ("1", 0)), ("W", 1, 2, None), ("Q", 2, 2 + T, b"a" * (T - 2)),
+                                                             ("W", 2 + T, 3 + T, None), ("N", 3 + T, 4 + T, ("2", 0))])
+        mk("sq_string_utf8", [b"'", ((T - 2) // 2, "\u00e9".encode()), b"'" if (T - 2) % 2 == 0 else b"q'"],
+           [("Q", 0, T, "\u00e9".encode() * ((T - 2) // 2) + (b"" if (T - 2) % 2 == 0 else b"q"))])
+        mk("verbatim_string", [b"@\"", (T - 3, b"b"), b"\""], [("Q", 0, T, b"b" * (T - 3))])
+        mk("identifier", [(T, b"i"), b" "], [("I", 0, T, b"i" * T), ("W", T, T + 1, None)])
+        # text block: |||\n + M lines of '  x...x\n' + '|||' ; total length T = 4 + M * L + 3
+        L = 64
+        M = (T - 7) // L
+        pad = (T - 7) - M * L          # a first, shorter line
+        first = b"  " + b"f" * max(pad - 3, 0) + b"\n" if pad >= 3 else b""
+        extra = pad - len(first)
+        parts = [b"|||\n", first, (M, b"  " + b"x" * (L - 3) + b"\n"), b" " * extra + b"|||"]
+        payload = (first[2:] if first else b"") + (b"x" * (L - 3) + b"\n") * M
+        mk("text_block", parts, [("B", 0, T, payload)])
+    return out
+
+
+def giant_arg(parts):
+    segs = []
+    for p in parts:
+        if isinstance(p, tuple):
+            if p[0] > 0:
+                segs.append("r%d:%s" % (p[0], p[1].hex()))
+        elif p:
+            segs.append("x" + p.hex())
+    return "+".join(segs) + ("+x" if len(segs) == 1 and segs[0].startswith("x") else "")
+
+
+def giant_shard(args):
+    cases, = args
+    import zlib
+    agg = Agg()
+    srv = Server(mem_gib=6)
+    try:
+        for name, parts, expect in cases:
+            total = sum((p[0] * len(p[1])) if isinstance(p, tuple) else len(p) for p in parts)
+            line = "LEX " + giant_arg(parts)
+            agg.evaluations += 1
+            desc = {"family": "giant:" + name.split(":")[0], "token_length": int(name.split(":")[1]), "input_length": total,
+                    "input": line[:200]}
+            replay = {"script": [line]}
+            try:
+                rec = srv.request([line], timeout=300)[0]
+            except Crashed as e:
+                if e.kind in ("timeout", "oom"):
+                    agg.inconc(e.kind)
+                    continue
+                agg.violation({"kind": "lexer_crash", "family": "giant"}, dict(desc, crash=e.detail[-300:]), replay)
+                continue
+            if rec.status == "PANIC":
+                agg.violation({"kind": "lexer_panic", "msg": re.sub(r"[0-9]+", "N", rec.s("msg") or "")[:80]},
+                              dict(desc, panic=rec.s("msg"), loc=rec.s("loc")), replay)
+                continue
+            if rec.status != "OK":
+                raise common.Broken("LEX answered " + rec.raw[:200])
+            if rec.get("full") == "ERR":
+                agg.violation({"kind": "valid_input_rejected", "errkind": rec.get("fullkind")}, dict(desc, error=rec.s("fulldbg")), replay)
+                continue
+            got = []
+            for t in rec["full"].split(","):
+                p = t.split(":")
+                if "WRONGCTX" in p:
+                    agg.violation({"kind": "token_span_in_wrong_context"}, dict(desc, token=t[:80]), replay)
+                    break
+                kind = p[0]
+                pay = None
+                if kind in ("Q", "B", "I"):
+                    pay = (p[3] + ":" + p[4]) if p[3].startswith("#") else unhx(p[3])
+                elif kind == "N":
+                    pay = (unhx(p[3]).decode("ascii"), int(p[4]))
+                got.append((kind, int(p[1]), int(p[2]), pay))
+            else:
+                exp = []
+                for k, s0, e0, pay in expect:
+                    if isinstance(pay, bytes) and len(pay) > (1 << 20):
+                        pay = "#%d:%08x" % (len(pay), zlib.crc32(pay) & 0xFFFFFFFF)
+                    exp.append((k, s0, e0, pay))
+                exp.append(("E", total, total, None))
+                if got != exp:
+                    k = next((i for i, (a, b) in enumerate(zip(exp, got)) if a != b), min(len(exp), len(got)))
+                    agg.violation({"kind": "giant_token_differs_from_construction", "family": "giant:" + name.split(":")[0]},
+                                  dict(desc, index=k, expected=repr(exp[k] if k < len(exp) else None)[:200],
+                                       got=repr(got[k] if k < len(got) else None)[:200]), replay)
+                    continue
+                filt = rec["filt"].split(",")
+                if len(filt) != len([t for t in exp if t[0] not in ("W", "C")]):
+                    agg.violation({"kind": "filtered_list_differs", "family": "giant"}, desc, replay)
+                    continue
+                agg.count("giant_tokens_ok")
+                agg.add("giant_token_cells", name)
+                agg.nontrivial.add(common.h64("giant", name))
+                if len(agg.samples) < 1:
+                    agg.sample({"leg": "giant", "case": name, "input": line[:120], "tokens": [list(map(str, t[:3])) for t in got]})
+    finally:
+        srv.close()
+    return agg
+
+
 def fuzz_judge(agg, d):
     data = d["data"]
     desc = {"family": "fuzz", "input": data[:400].decode("latin-1")}
@@ -442,6 +559,15 @@ def run(tier, seed):
         # coverage-guided inputs: tiling monitors in process (libFuzzer + ASan), the kept corpus through the reference lexer
         import fuzzleg
         fuzzleg.run_leg(total, PROP, "fz_lex", int(os.environ.get("VERIF_FUZZ_SECONDS") or 600), seed, 4096, fuzz_judge, fuzz_corpus)
+    gc_ = giant_cases()
+    if quick:
+        # every token kind at one of the boundary lengths each (rotating with the seed), all lengths in the thorough tier
+        kinds = sorted({c[0].split(":")[0] for c in gc_})
+        lens = sorted({int(c[0].split(":")[1]) for c in gc_})
+        keep = {"%s:%d" % (k, lens[(i + seed + j * 3) % len(lens)]) for i, k in enumerate(kinds) for j in range(2)}
+        gc_ = [c for c in gc_ if c[0] in keep]
+    for a in common.pmap(giant_shard, [(gc_[i::8],) for i in range(8)], nproc=8):
+        total.merge(a)
     for a in common.pmap(number_forms_shard, [(seed,)]):
         total.merge(a)
     n = 160_000 if quick else 6_000_000
@@ -473,7 +599,9 @@ def run(tier, seed):
             "reference lexer written from the lexical grammar (token kind, extent, decoded payload), lossy UTF-8 via "
             "Python's decoder; exhaustive: all pairs and triples of the 15 operator characters in 5 contexts, every "
             "BMP scalar value (thorough; 18k in quick) + 2000 astral in 8 string/comment forms, every class of "
-            "invalid 1-3 byte UTF-8 prefix in 7 forms; thorough tier: a coverage-guided libFuzzer campaign with the tiling / "
+            "invalid 1-3 byte UTF-8 prefix in 7 forms; giant tokens (one whitespace run / comment of 3 kinds / quoted, UTF-8 and verbatim "
+            "string / identifier / text block whose span length is 2^25-1, 2^25, 2^25+1, 2^26-1, 2^26, 2^26+1 or 3*2^24+5 bytes, sent "
+            "run-length encoded) with extents and payload checksums known by construction; thorough tier: a coverage-guided libFuzzer campaign with the tiling / "
             "filter / located-error monitors in process, its kept corpus then compared with the reference lexer. distinct_nontrivial = distinct inputs on which the full token "
             "list was compared with the reference (or both rejected).")
     return common.finish(PROP, tier, seed, total, rule, t0,
